@@ -46,9 +46,19 @@ def render_rule(r, style=0):
     return s
 
 
-def render(schema, style=0):
+def text_order(schema, moves=()):
+    """The order in which the rules stand in the text: the schema's order with some rules moved (the meaning of an LVS file does
+    not depend on the order of its rules)."""
+    rules = list(schema['rules'])
+    for a, b in moves or ():
+        if rules:
+            rules.insert(b % len(rules), rules.pop(a % len(rules)))
+    return rules
+
+
+def render(schema, style=0, moves=()):
     lines = []
-    for i, r in enumerate(schema['rules']):
+    for i, r in enumerate(text_order(schema, moves)):
         if (style + i) % 4 == 0:
             lines.append('// comment ' + r['id'])
         lines.append(('  ' if style % 2 else '') + render_rule(r, style + i))
